@@ -156,14 +156,15 @@ def c07_balance(nfr, free, fixed=None, workers=2, watcher=False, planted=None, m
 
 # ------------------------------------------------------------------------------------------------ C06: kill / restart
 
-def c06_restart(victim, free, fixed=None, restart_delays=(0, 300, 5600), planted=None, max_steps=6000, interval=100):
+def c06_restart(victim, free, fixed=None, restart_delays=(0, 300, 5600), planted=None, max_steps=6000, interval=100, sub_delays=(150,)):
     def scenario(e):
         T = dict(fixed or {})
         for k, (lo, hi) in free.items(): T[k] = e.fresh_int(k, lo, hi)
         rd = restart_delays[e.choice('restart_delay', len(restart_delays))] if 'rd' not in T else T['rd']
         tk = T['tk']
         horizon_end = 700 + (rd if isinstance(rd, int) else 6000) + CONN + 1200
-        p = Pipeline(e, max_steps=max_steps, horizon=horizon_end)
+        sd = sub_delays[e.choice('sub_reconnect_ms', len(sub_delays))] if len(sub_delays) > 1 else sub_delays[0]
+        p = Pipeline(e, max_steps=max_steps, horizon=horizon_end, sub_delay=sd)
         p.net.delay_fn = lambda a, b: T.get('d', 10)
         spec = {
             'A': dict(outputs='tcp://*:5550', source_frames=100000, outputs_required='B', frame_interval=interval),
